@@ -8,8 +8,16 @@
 #include "common.hpp"
 #include <csignal>
 #include <unistd.h>
+#include <bitset>
+#include <random>
+#include <chrono>
+#include <thread>
+// the `consts` mode dumps the (private) layout constants and XXHash primes as the compiler sees them, for the
+// translator cross-check; nothing else in this harness touches non-public members
+#define private public
 #include "bloom_filter.hpp"
 #include "xxhash64.h"
+#undef private
 
 using namespace datasketches;
 using vh::split;
@@ -237,7 +245,30 @@ static std::string sugg_step(const std::vector<std::string>& w) {
   return "bad-op";
 }
 
+static int dump_consts() {
+  typedef unsigned long long ull;
+  printf("bloom_MAX_HEADER_SIZE_BYTES %llu\n", (ull)+bloom_filter::MAX_HEADER_SIZE_BYTES);
+  printf("bloom_DIRTY_BITS_VALUE %llu\n", (ull)+bloom_filter::DIRTY_BITS_VALUE);
+  printf("bloom_BIT_ARRAY_LENGTH_OFFSET_BYTES %llu\n", (ull)+bloom_filter::BIT_ARRAY_LENGTH_OFFSET_BYTES);
+  printf("bloom_NUM_BITS_SET_OFFSET_BYTES %llu\n", (ull)+bloom_filter::NUM_BITS_SET_OFFSET_BYTES);
+  printf("bloom_BIT_ARRAY_OFFSET_BYTES %llu\n", (ull)+bloom_filter::BIT_ARRAY_OFFSET_BYTES);
+  printf("bloom_MAX_FILTER_SIZE_BITS %llu\n", (ull)+bloom_filter::MAX_FILTER_SIZE_BITS);
+  printf("bloom_PREAMBLE_LONGS_EMPTY %llu\n", (ull)+bloom_filter::PREAMBLE_LONGS_EMPTY);
+  printf("bloom_PREAMBLE_LONGS_STANDARD %llu\n", (ull)+bloom_filter::PREAMBLE_LONGS_STANDARD);
+  printf("bloom_FAMILY_ID %llu\n", (ull)+bloom_filter::FAMILY_ID);
+  printf("bloom_SER_VER %llu\n", (ull)+bloom_filter::SER_VER);
+  printf("bloom_EMPTY_FLAG_MASK %llu\n", (ull)+bloom_filter::EMPTY_FLAG_MASK);
+  printf("xxh_Prime1 %llu\n", (ull)+XXHash64::Prime1);
+  printf("xxh_Prime2 %llu\n", (ull)+XXHash64::Prime2);
+  printf("xxh_Prime3 %llu\n", (ull)+XXHash64::Prime3);
+  printf("xxh_Prime4 %llu\n", (ull)+XXHash64::Prime4);
+  printf("xxh_Prime5 %llu\n", (ull)+XXHash64::Prime5);
+  printf("xxh_MaxBufferSize %llu\n", (ull)+XXHash64::MaxBufferSize);
+  return 0;
+}
+
 int main(int argc, char** argv) {
+  if (argc > 1 && std::string(argv[1]) == "consts") return dump_consts();
   if (argc > 1 && std::string(argv[1]) == "hash") return vh::run_loop(hash_step);
   if (argc > 1 && std::string(argv[1]) == "sugg") return vh::run_loop(sugg_step);
   return vh::run_loop(step);
